@@ -544,6 +544,10 @@ class Explorer:
         self.ctx = ctx
         self.max_pending = max_pending   # user requests that may be accepted between two ticks (validated against the same state)
         self.b = RunStateBinding(ctx, faults, track)
+        # A faulting call with a modelled effect (hwl.write_batch: hw := outs; interpreter.tick; _command_manager.tick) may also raise
+        # *before* the effect. Only the exact scheduler explores that: combined with the coarse scheduler's stalling commands it
+        # produces histories the real command loop cannot (a Restart that ends many ticks after it began).
+        self.b.fault_before_effect = bool(exact and faults)
         self.it = Interp(self.b, max_depth=6)
         self.b.interp = self.it
         self.b.cmd_hook = self._cmd_hook
